@@ -14,6 +14,7 @@ class TraceOutcome:
         self.states = 0
         self.generated = 0
         self.wall = 0.0
+        self.undiagnosed = []
         self.model_errors = []  # (batch, error, name, trace) invariant violations met while validating
 
 
@@ -63,11 +64,29 @@ def validate(module, cfg, spec_dir, traces, *, batch=400, procs=None, depth_firs
             else:
                 suspects.append(i)
 
+    # a batch that hit an error makes all its traces suspect: narrow them down with small batches first, so that
+    # only traces that are really not accepted are diagnosed one by one (never report an undiagnosed trace)
+    if len(suspects) > 24:
+        small = [suspects[i:i + 8] for i in range(0, len(suspects), 8)]
+        with ThreadPoolExecutor(max_workers=procs) as ex:
+            res2 = list(ex.map(work, small))
+        suspects = []
+        for b, res in res2:
+            if res.error:
+                suspects.extend(b)
+                continue
+            acc = {v[1] for v in tlc.printed_values(res.out) if len(v) == 2 and v[0] == "ACCEPT"}
+            for k, i in enumerate(b):
+                if (k + 1) in acc:
+                    out.accepted.add(i)
+                else:
+                    suspects.append(i)
+
     def single(i):
         return i, _run_batch(module, cfg, spec_dir, traces, [i], True, module + "-diag", 1, depth_first, timeout)
 
     with ThreadPoolExecutor(max_workers=procs) as ex:
-        for i, res in ex.map(single, suspects[:24]):
+        for i, res in ex.map(single, suspects[:48]):
             vals = tlc.printed_values(res.out)
             if res.error:
                 out.model_errors.append((i, res.error, res.error_name, res.trace))
@@ -76,6 +95,7 @@ def validate(module, cfg, spec_dir, traces, *, batch=400, procs=None, depth_firs
                 continue
             at = [v[2] for v in vals if len(v) == 3 and v[0] == "AT"]
             out.rejected[i] = (max(at) - 1) if at else 0
-    for i in suspects[24:]:
+    out.undiagnosed = list(suspects[48:])   # not accepted in a small batch and beyond the diagnosis budget
+    for i in out.undiagnosed:
         out.rejected[i] = -1
     return out
